@@ -44,7 +44,7 @@ func TestC01(t *testing.T) {
 		for step := 0; step <= steps; step++ {
 			edit := e2e.Edit{Kind: "initial"}
 			if step > 0 {
-				next, e := e2e.ApplyRandomEdit(rng, state, e2e.EditOpts{AllowRevert: true, History: history})
+				next, e := e2e.ApplyRandomEdit(rng, state, e2e.EditOpts{AllowRevert: true, History: history, AllowBreak: true})
 				if err := next.Sync(sb.Repo, state); err != nil {
 					panic(err)
 				}
@@ -78,6 +78,16 @@ func TestC01(t *testing.T) {
 			if res.TimedOut || clean.Result.TimedOut {
 				r.Inconclusive(fmt.Sprintf("history %d step %d: plz timed out", i, step))
 				return
+			}
+			if broken := state.Broken(); broken != nil && clean.Result.Exit != 0 {
+				// A deliberately failing command (break-late): the clean build fails, so must the incremental one.
+				// The next step repairs it and builds where the failed attempt left its files behind.
+				r.Obs("deliberately_failing_steps", 1)
+				if res.Exit == 0 {
+					r.Violation("incremental-build-succeeds-where-clean-fails/"+edit.Kind, fmt.Sprintf("the command of %s fails (clean build exits %d) but the incremental build exits 0", broken.Label(), clean.Result.Exit), map[string]any{"trail": trail, "state": state, "request": request}, i)
+					return
+				}
+				continue
 			}
 			if clean.Result.Exit != 0 {
 				// The generator produced something that does not build even from scratch: not a verdict on C01.
